@@ -504,3 +504,66 @@ func min64(a, b uint64) uint64 {
 	}
 	return b
 }
+
+// TestCapacity: more subscribers than the bucket maps can hold. Whatever the control plane does when a map is
+// full (refuse with an error is fine), a subscriber whose policy it ACCEPTED must stay enforced: the maps of the
+// loaded object keep their declared type, only their size is shrunk so that "full" is reached with a few hundred
+// subscribers. Judged in the kernel (BPF_PROG_TEST_RUN): two full-size frames back to back against a 1500-byte
+// burst at 8 kbit/s - the second one must be dropped for every accepted subscriber, oldest ones included.
+func TestCapacity(t *testing.T) {
+	for _, size := range []uint32{64, 256} {
+		k, err := cplane.LoadKernelSized("qos_ratelimit", size)
+		if err != nil {
+			run.Violation("bpf/qos_ratelimit.c", "program-loads", "verifier-or-load-error", err.Error(), nil)
+			return
+		}
+		mgr, err := qos.NewManager(qos.ManagerConfig{Interface: "lo"}, radius.NewPolicyManager(), zap.NewNop())
+		if err != nil {
+			t.Fatal(err)
+		}
+		mgr.VerifSetMaps(k.Coll.Maps["qos_egress"], k.Coll.Maps["qos_ingress"], k.Coll.Maps["qos_stats_map"])
+		n := int(size) * 3
+		var accepted []net.IP
+		refused := 0
+		for i := 0; i < n; i++ {
+			ip := net.IPv4(10, 77, byte(i>>8), byte(i)).To4()
+			if err := mgr.SetSubscriberQoS(&qos.SubscriberQoS{IP: ip, DownloadBPS: 8000, UploadBPS: 8000, BurstBytes: 1500, Priority: 1}); err != nil {
+				refused++
+				continue
+			}
+			accepted = append(accepted, ip)
+		}
+		run.Count("capacity_policies_accepted", len(accepted))
+		run.Count("capacity_policies_refused_with_error", refused)
+		unenforced := 0
+		var first net.IP
+		for _, ip := range accepted {
+			for _, dir := range []string{"egress", "ingress"} {
+				frame := frameFor(dir, ip)
+				frame = append(frame, make([]byte, 1400)...)
+				v1, _, e1 := k.Run("qos_"+dir+"_prog", frame)
+				v2, _, e2 := k.Run("qos_"+dir+"_prog", frame)
+				if e1 != nil || e2 != nil {
+					run.Inconclusive("capacity", fmt.Sprint("kernel run failed: ", e1, e2))
+					k.Close()
+					return
+				}
+				run.Eval()
+				if v1 == 0 && v2 == 0 { // TC_ACT_OK twice: nobody is counting
+					unenforced++
+					if first == nil {
+						first = ip
+					}
+				}
+			}
+		}
+		run.Nontrivial(fmt.Sprintf("capacity|%d", size))
+		if unenforced > 0 {
+			run.Violation("qos.Manager.SetSubscriberQoS+bpf/qos_ratelimit.c", "policy-set-is-enforced", "accepted-policy-gone-when-map-is-full",
+				fmt.Sprintf("maps of %d entries, %d policies installed (%d accepted, %d refused with an error): %d (subscriber, direction) pairs whose policy was accepted are not enforced any more (first: %v) - two 1400-byte frames back to back both pass an 8 kbit/s / 1500-byte bucket", size, n, len(accepted), refused, unenforced, first),
+				map[string]any{"map_entries": size, "installed": n})
+		}
+		k.Close()
+	}
+	run.Floor("capacity_policies_accepted", 100)
+}
